@@ -612,8 +612,11 @@ class ApertureFamily:
                     pos = pos[0]
                 return {'op': 'set', 'name': nm, 'value': pos}
             if nm == 'theta':
-                return {'op': 'set', 'name': nm,
-                        'value': rng.uniform(-3, 6)}
+                # a plain float (radians) or an angular Quantity
+                un = rng.pick([None, None, 'rad', 'deg'])
+                return {'op': 'set', 'name': nm, 'unit': un,
+                        'value': rng.uniform(-3, 6) * (
+                            30.0 if un == 'deg' else 1.0)}
             if rng.chance(0.12):
                 return {'op': 'set', 'name': nm,
                         'value': rng.pick([-1.0, 0.0])}
@@ -732,6 +735,10 @@ class ApertureFamily:
             elif nm != 'theta':
                 bad = v <= 0
             ncached = sum(1 for k in o._lazyproperties if k in o.__dict__)
+            if nm == 'theta' and op.get('unit'):
+                import astropy.units as u
+                v = v * getattr(u, op['unit'])
+                st.stats.probe('theta_assigned_as_quantity')
             out = call(setattr, o, nm, np.array(v, dtype=float)
                        if nm == 'positions' else v)
             if bad:
